@@ -1699,17 +1699,11 @@ def family_f2(rng):
         [Handler("exec", "side_exec", [Arg("n", "u32")]), Handler("query", "side_query", [Arg("who", "String")], ret="String"), Handler("sudo", "side_sudo")],
     )
     cs = []
-    subsets = [[]]
-    for k in KINDS:
-        subsets.append([k])
-    subsets.append(list(KINDS))
-    subsets.append(["exec", "sudo", "migrate"])
-    subsets.append(["instantiate", "query"])
-    subsets.append(["query", "reply"])
-    while len(subsets) < 30:
-        sub = [k for k in KINDS if rng.random() < 0.4]
-        if sub not in subsets:
-            subsets.append(sub)
+    # all 64 subsets of overridden kinds; migrate / reply presence and the replies feature cycle
+    # independently of the subset (periods 3 and 2 against an enumeration by bit mask)
+    subsets = []
+    for mask in range(64):
+        subsets.append([k for i, k in enumerate(KINDS) if mask & (1 << i)])
     for n, sub in enumerate(subsets):
         has_migrate = (n % 3 != 1) or ("migrate" in sub and n % 2 == 0)
         reply_mode = ["none", "feature", "legacy"][n % 3]
@@ -1729,6 +1723,17 @@ def family_f2(rng):
         elif reply_mode == "legacy":
             hs.append(Handler("reply", "reply", reply=Reply([], "always", payload_raw=True, payload=[Arg("payload", "Binary")], legacy=True)))
         name = "o" + "".join(chr(ord("a") + int(d)) for d in "%02d" % n)
+        # the second half of the enumeration flips the cycled dimensions
+        if n >= 32:
+            has_migrate = not has_migrate
+            reply_mode = {"none": "legacy", "legacy": "feature", "feature": "none"}[reply_mode]
+            hs = [h for h in hs if h.kind not in ("migrate", "reply")]
+            if has_migrate:
+                hs.append(Handler("migrate", "migrate", [Arg("a", "u32")]))
+            if reply_mode == "feature":
+                hs.append(Handler("reply", "on_done", reply=Reply([], "always", payload_raw=True, payload=[Arg("payload", "Binary")])))
+            elif reply_mode == "legacy":
+                hs.append(Handler("reply", "reply", reply=Reply([], "always", payload_raw=True, payload=[Arg("payload", "Binary")], legacy=True)))
         cs.append(
             Contract(
                 name,
@@ -1754,7 +1759,7 @@ def family_f2(rng):
         ]
         if n % 2 == 0:
             hs.append(Handler("reply", "on_done", reply=Reply([], "always", payload_raw=True, payload=[Arg("payload", "Binary")])))
-        cs.append(Contract("og" + "abcd"[n], "f2", hs, uses=[Use(side)], generic=["Pt", "Kd", "String", "u64"][n], err=["own", "std"][n % 2], overrides=sub, replies=(n % 2 == 0), tags=("override", "regular")))
+        cs.append(Contract("zg" + "abcd"[n], "f2", hs, uses=[Use(side)], generic=["Pt", "Kd", "String", "u64"][n], err=["own", "std"][n % 2], overrides=sub, replies=(n % 2 == 0), tags=("override", "regular")))
     return [side], cs
 
 
